@@ -311,7 +311,7 @@ class ExprMixin:
         for s1, lo, hi in self.slice_bounds(s, sl, n):
             c = self.lcontent(s1, obj.z, obj.x)
             j = z3.Int("j!sl")
-            newc = z3.Lambda([j], z3.Select(c, j + lo))
+            newc = self.mk_array(j, z3.Select(c, j + lo), c)
             res.append((s1, self.new_list(s1, obj.x, newc, hi - lo)))
         return res
 
